@@ -131,7 +131,15 @@ var c10Carriers = []c10Carrier{
 		return carrierSameName{s, M{"zz9": 1, "a": M{"zz9": 2}}}
 	}, "k.", nil},
 	{"map{k:S, k.zz9:5, k.a.zz9:6}", func(s *ucfg.Config) interface{} { return M{"k": s, "k.zz9": 5, "k.a.zz9": 6} }, "k.", []ucfg.Option{ucfg.PathSep(".")}},
+	// other ways of handing a Config over directly
+	{"Config by value (direct)", func(s *ucfg.Config) interface{} { return *s }, "", nil},
+	{"**Config (direct)", func(s *ucfg.Config) interface{} { return &s }, "", nil},
+	{"rebranded *MyCfg (direct)", func(s *ucfg.Config) interface{} { return (*c10MyCfg)(s) }, "", nil},
+	{"rebranded MyCfg by value (direct)", func(s *ucfg.Config) interface{} { return *(*c10MyCfg)(s) }, "", nil},
+	{"map{k: rebranded *MyCfg}", func(s *ucfg.Config) interface{} { return M{"k": (*c10MyCfg)(s)} }, "k.", nil},
 }
+
+type c10MyCfg ucfg.Config
 
 var c10Dests = []struct {
 	Name  string
